@@ -22,6 +22,9 @@ Definition TT (P : cand) (t : thunk) : Prop := forall n, ok_out P (eval_thunk n 
 Definition app_out (n : nat) (v : whnf) (t : thunk) : outcome whnf :=
   apply_with (eval n) MTyped v t.
 
+Definition name_of (v : whnf) : option string :=
+  match v with VTag t => Some t | VVariant t _ => Some t | _ => None end.
+
 Fixpoint V (T : ty) (d : list cand) (v : whnf) {struct T} : Prop :=
   match T with
   | TDyn => pure_whnf v
@@ -32,7 +35,7 @@ Fixpoint V (T : ty) (d : list cand) (v : whnf) {struct T} : Prop :=
   | TFun A B => forall t, TT (V A d) t -> forall n, ok_out (V B d) (app_out n v t)
   | TRec r => exists fs, v = VRec fs /\ Vrows r d fs
   | TDict T' => exists fs, v = VRec fs /\ Forall (fun ft => TT (V T' d) (snd ft)) fs
-  | TEnum tags => exists t, v = VTag t /\ In t tags
+  | TEnum e => Verows e d v
   | TVar i => nth i d (fun _ => False) v
   | TForall T' => forall R : cand, V T' (R :: d) v
   end
@@ -41,6 +44,13 @@ with Vrows (r : rows) (d : list cand) (fs : list (string * thunk)) {struct r} : 
   | RNil, [] => True
   | RCons f T r', (g, t) :: fs' => f = g /\ TT (V T d) t /\ Vrows r' d fs'
   | _, _ => False
+  end
+with Verows (e : erows) (d : list cand) (v : whnf) {struct e} : Prop :=
+  (* the first row of a tag shadows the later ones, as [erows_lookup] *)
+  match e with
+  | ENil => False
+  | EBare t e' => v = VTag t \/ (name_of v <> Some t /\ Verows e' d v)
+  | EArg t T e' => (exists th, v = VVariant t th /\ TT (V T d) th) \/ (name_of v <> Some t /\ Verows e' d v)
   end.
 
 (* ------------------------------------------------------------------------ extensionality *)
@@ -81,7 +91,8 @@ Qed.
 
 Lemma V_shift_mut :
   (forall T d1 R d2 v, V (shift (List.length d1) T) (d1 ++ R :: d2) v <-> V T (d1 ++ d2) v) /\
-  (forall r d1 R d2 fs, Vrows (shift_rows (List.length d1) r) (d1 ++ R :: d2) fs <-> Vrows r (d1 ++ d2) fs).
+  (forall r d1 R d2 fs, Vrows (shift_rows (List.length d1) r) (d1 ++ R :: d2) fs <-> Vrows r (d1 ++ d2) fs) /\
+  (forall e d1 R d2 v, Verows (shift_erows (List.length d1) e) (d1 ++ R :: d2) v <-> Verows e (d1 ++ d2) v).
 Proof.
   apply ty_rows_ind; intros; simpl; try tauto.
   - (* TArr *)
@@ -99,6 +110,7 @@ Proof.
     split; intros [fs [-> HF]]; exists fs; (split; [reflexivity|]);
       rewrite Forall_forall in *; intros ft Hin; specialize (HF ft Hin);
       (eapply TT_ext; [|exact HF]); intros v'; [symmetry|]; apply H.
+  - (* TEnum *) apply H.
   - (* TVar *)
     destruct (Nat.leb (List.length d1) n) eqn:Hle; simpl.
     + pose proof (@nth_insert cand d1 d2 R (fun _ => False) n) as Hn. rewrite Hle in Hn.
@@ -115,6 +127,15 @@ Proof.
     + apply H0 in Hr. assumption.
     + eapply TT_ext; [|eassumption]. intros v'. apply H.
     + apply H0. assumption.
+  - (* EBare *)
+    split; intros [Hv|[Hn Hr]]; try (left; assumption); right; (split; [assumption|]);
+      first [apply H; assumption | apply H in Hr; assumption].
+  - (* EArg *)
+    split; intros [[th [Hv Ht]]|[Hn Hr]].
+    + left. exists th. split; [assumption|]. eapply TT_ext; [|eassumption]. intros v'. symmetry. apply H.
+    + right. split; [assumption|]. apply H0 in Hr. assumption.
+    + left. exists th. split; [assumption|]. eapply TT_ext; [|eassumption]. intros v'. apply H.
+    + right. split; [assumption|]. apply H0. assumption.
 Qed.
 
 Lemma V_shift0 : forall T R d v, V (shift 0 T) (R :: d) v <-> V T d v.
@@ -135,7 +156,9 @@ Lemma V_subst_mut : forall S d2,
   (forall T d1 v, V (subst (List.length d1) (shiftn (List.length d1) S) T) (d1 ++ d2) v
                   <-> V T (d1 ++ V S d2 :: d2) v) /\
   (forall r d1 fs, Vrows (subst_rows (List.length d1) (shiftn (List.length d1) S) r) (d1 ++ d2) fs
-                   <-> Vrows r (d1 ++ V S d2 :: d2) fs).
+                   <-> Vrows r (d1 ++ V S d2 :: d2) fs) /\
+  (forall e d1 v, Verows (subst_erows (List.length d1) (shiftn (List.length d1) S) e) (d1 ++ d2) v
+                  <-> Verows e (d1 ++ V S d2 :: d2) v).
 Proof.
   intros S d2. apply ty_rows_ind; intros; simpl; try tauto.
   - split; intros [ts [-> HF]]; exists ts; split; auto;
@@ -150,6 +173,7 @@ Proof.
     split; intros [fs [-> HF]]; exists fs; (split; [reflexivity|]);
       rewrite Forall_forall in *; intros ft Hin; specialize (HF ft Hin);
       (eapply TT_ext; [|exact HF]); intros v'; [symmetry|]; apply H.
+  - (* TEnum *) apply H.
   - (* TVar *)
     destruct (Nat.compare n (List.length d1)) eqn:Hc.
     + apply Nat.compare_eq in Hc. subst n.
@@ -167,6 +191,15 @@ Proof.
     + apply H0 in Hr. assumption.
     + eapply TT_ext; [|eassumption]. intros v'. apply H.
     + apply H0. assumption.
+  - (* EBare *)
+    split; intros [Hv|[Hn Hr]]; try (left; assumption); right; (split; [assumption|]);
+      first [apply H; assumption | apply H in Hr; assumption].
+  - (* EArg *)
+    split; intros [[th [Hv Ht]]|[Hn Hr]].
+    + left. exists th. split; [assumption|]. eapply TT_ext; [|eassumption]. intros v'. symmetry. apply H.
+    + right. split; [assumption|]. apply H0 in Hr. assumption.
+    + left. exists th. split; [assumption|]. eapply TT_ext; [|eassumption]. intros v'. apply H.
+    + right. split; [assumption|]. apply H0. assumption.
 Qed.
 
 Lemma V_subst0 : forall T S d v, V (subst 0 S T) d v <-> V T (V S d :: d) v.
@@ -182,4 +215,54 @@ Proof.
   simpl. destruct (String.eqb f g).
   - inversion Hl; subst. exists t. split; [reflexivity|assumption].
   - eapply IH; eauto.
+Qed.
+
+(* --------------------------------------------------------------------------------- enums *)
+
+Lemma Verows_tag : forall e d t, erows_lookup t e = Some None -> Verows e d (VTag t).
+Proof.
+  induction e as [|u e IH|u T e IH]; simpl; intros d t H; [discriminate| |].
+  - destruct (String.eqb t u) eqn:Heq.
+    + apply String.eqb_eq in Heq. subst. left. reflexivity.
+    + right. split; [|apply IH; assumption]. simpl. intros Hc. inversion Hc; subst.
+      rewrite String.eqb_refl in Heq. discriminate.
+  - destruct (String.eqb t u) eqn:Heq; [discriminate|].
+    right. split; [|apply IH; assumption]. simpl. intros Hc. inversion Hc; subst.
+    rewrite String.eqb_refl in Heq. discriminate.
+Qed.
+
+Lemma Verows_variant : forall e d t T th,
+  erows_lookup t e = Some (Some T) -> TT (V T d) th -> Verows e d (VVariant t th).
+Proof.
+  induction e as [|u e IH|u U e IH]; simpl; intros d t T th H Ht; [discriminate| |].
+  - destruct (String.eqb t u) eqn:Heq; [discriminate|].
+    right. split; [|eapply IH; eassumption]. simpl. intros Hc. inversion Hc; subst.
+    rewrite String.eqb_refl in Heq. discriminate.
+  - destruct (String.eqb t u) eqn:Heq.
+    + apply String.eqb_eq in Heq. subst. inversion H; subst. left. exists th. split; [reflexivity|assumption].
+    + right. split; [|eapply IH; eassumption]. simpl. intros Hc. inversion Hc; subst.
+      rewrite String.eqb_refl in Heq. discriminate.
+Qed.
+
+Lemma Verows_inv : forall e d v, Verows e d v ->
+  (exists t, v = VTag t /\ erows_lookup t e = Some None) \/
+  (exists t th T, v = VVariant t th /\ erows_lookup t e = Some (Some T) /\ TT (V T d) th).
+Proof.
+  induction e as [|u e IH|u U e IH]; simpl; intros d v H; [contradiction| |].
+  - destruct H as [->|[Hn Hr]].
+    + left. exists u. rewrite String.eqb_refl. split; reflexivity.
+    + destruct (IH d v Hr) as [[t [-> Hl]]|[t [th [T [-> [Hl Ht]]]]]].
+      * left. exists t. split; [reflexivity|]. destruct (String.eqb t u) eqn:Heq; [|assumption].
+        apply String.eqb_eq in Heq. subst. exfalso. apply Hn. reflexivity.
+      * right. exists t, th, T. split; [reflexivity|]. split; [|assumption].
+        destruct (String.eqb t u) eqn:Heq; [|assumption].
+        apply String.eqb_eq in Heq. subst. exfalso. apply Hn. reflexivity.
+  - destruct H as [[th [-> Ht]]|[Hn Hr]].
+    + right. exists u, th, U. rewrite String.eqb_refl. split; [reflexivity|]. split; [reflexivity|assumption].
+    + destruct (IH d v Hr) as [[t [-> Hl]]|[t [th [T [-> [Hl Ht]]]]]].
+      * left. exists t. split; [reflexivity|]. destruct (String.eqb t u) eqn:Heq; [|assumption].
+        apply String.eqb_eq in Heq. subst. exfalso. apply Hn. reflexivity.
+      * right. exists t, th, T. split; [reflexivity|]. split; [|assumption].
+        destruct (String.eqb t u) eqn:Heq; [|assumption].
+        apply String.eqb_eq in Heq. subst. exfalso. apply Hn. reflexivity.
 Qed.
